@@ -186,7 +186,9 @@ func ruleTICK(c *Checker) {
 	c.decide(okTicks, "TICK-2", "Ticks|returns Force", ticks.Pos(), "Ticks() is the channel the goroutine forwards to", "Ticks() does not return the Force channel")
 
 	// ---- TICK-3 ----
-	callsOf := func(fn *ssa.Function, pred func(ssa.CallInstruction) bool) []ssa.CallInstruction { return findCalls(fn, pred) }
+	callsOf := func(fn *ssa.Function, pred func(ssa.CallInstruction) bool) []ssa.CallInstruction {
+		return findCalls(fn, pred)
+	}
 	newTicker := callsOf(resetU, func(ci ssa.CallInstruction) bool { return staticCalleeIs(ci.Common(), "time", "", "NewTicker") })
 	okNew := len(newTicker) == 1 && newTicker[0].Common().Args[0] == ssa.Value(resetU.Params[1])
 	if okNew {
@@ -210,7 +212,9 @@ func ruleTICK(c *Checker) {
 		sc := ci.Common().StaticCallee()
 		return sc != nil && isMethod(sc, "time", "Ticker", "Stop")
 	})
-	closes := callsOf(resetU, func(ci ssa.CallInstruction) bool { return isBuiltinCall(ci, "close") && chanField(ci.Common().Args[0]) == fQuit })
+	closes := callsOf(resetU, func(ci ssa.CallInstruction) bool {
+		return isBuiltinCall(ci, "close") && chanField(ci.Common().Args[0]) == fQuit
+	})
 	waits := callsOf(resetU, func(ci ssa.CallInstruction) bool {
 		sc := ci.Common().StaticCallee()
 		return sc != nil && isMethod(sc, "sync", "WaitGroup", "Wait")
